@@ -51,6 +51,7 @@ struct Stats {
   std::unordered_set<uint64_t> distinct_cases, distinct_traces, distinct_sigs;
   std::vector<std::string> samples;
   void add(const std::string &k, long v = 1) { c[k] += v; }
+  void max(const std::string &k, long v) { if (v > c[k]) c[k] = v; }
   void absorb(const simsched::SchedResult &r);
 };
 extern Stats g_stats;
@@ -73,6 +74,11 @@ extern Ctx g_ctx;
 Bytes make_plain(long len, uint64_t pseed, int ptype, size_t CH);
 long pick_len(Rng &g, size_t CH, int T);
 void pick_sched(Rng &g, Scn &s, int slot, int T, bool allow_faults);
+// bounded enumeration: schedule number j of a configuration: j < ENUM_SINGLE = the canonical schedule with ONE forced
+// preemption at decision index j/3 to the (j%3)-th other runnable thread; then ENUM_SPUR schedules with ONE spurious
+// wake-up at decision index q/3 of the (q%3)-th waiter; the rest: two such events at seeded positions
+static const long ENUM_PER_CFG = 1200, ENUM_SINGLE = 450, ENUM_SPUR = 450, ENUM_MAXK = 150;
+void enum_sched(Rng &g, Scn &s, int slot, long j);
 simsched::SchedConfig sc_for(const Scn &s, int slot, long nbytes, int T);
 simsched::SchedConfig sc_canonical(long nbytes, int T);
 void fill_base(Rng &g, Scn &s, int Tmax_small);
